@@ -69,7 +69,11 @@ func closureRound(pkgs []*packages.Package, overlay map[string][]byte) (map[stri
 						}
 					case *ast.DeclStmt:
 						if gd, ok := s.Decl.(*ast.GenDecl); ok && gd.Tok == token.VAR && len(gd.Specs) == 1 {
-							if vs, ok := gd.Specs[0].(*ast.ValueSpec); ok && len(vs.Names) == 1 && len(vs.Values) == 1 && vs.Type == nil {
+							_, typedFunc := interface{}(nil), false
+							if vs0, ok := gd.Specs[0].(*ast.ValueSpec); ok && vs0.Type != nil {
+								_, typedFunc = vs0.Type.(*ast.FuncType)
+							}
+							if vs, ok := gd.Specs[0].(*ast.ValueSpec); ok && len(vs.Names) == 1 && len(vs.Values) == 1 && (vs.Type == nil || typedFunc) {
 								if lit, ok := vs.Values[0].(*ast.FuncLit); ok {
 									if v, ok := pkg.TypesInfo.Defs[vs.Names[0]].(*types.Var); ok {
 										defs = append(defs, def{v, lit, s})
@@ -118,6 +122,7 @@ func closureRound(pkgs []*packages.Package, overlay map[string][]byte) (map[stri
 						call *ast.CallExpr
 					}
 					var sites []site
+					var blanks []ast.Stmt
 					okUses := true
 					var stack []ast.Node
 					ast.Inspect(fd.Body, func(n ast.Node) bool {
@@ -148,6 +153,15 @@ func closureRound(pkgs []*packages.Package, overlay map[string][]byte) (map[stri
 										sites = append(sites, site{rs, call})
 										return true
 									}
+								}
+							}
+						}
+						// `_ = x` (left behind by a parameter binding) goes with the definition
+						if len(stack) >= 2 {
+							if as, ok := stack[len(stack)-2].(*ast.AssignStmt); ok && as.Tok == token.ASSIGN && len(as.Lhs) == 1 && len(as.Rhs) == 1 && as.Rhs[0] == ast.Expr(id) {
+								if b, ok := as.Lhs[0].(*ast.Ident); ok && b.Name == "_" {
+									blanks = append(blanks, as)
+									return true
 								}
 							}
 						}
@@ -251,6 +265,9 @@ func closureRound(pkgs []*packages.Package, overlay map[string][]byte) (map[stri
 						continue
 					}
 					edits = append(edits, siteEdits...)
+					for _, bs := range blanks {
+						edits = append(edits, edit{off(bs.Pos()), off(bs.End()), ""})
+					}
 					// the definition goes
 					lo, hi := off(df.stmt.Pos()), off(df.stmt.End())
 					edits = append(edits, edit{lo, hi, ""})
